@@ -416,6 +416,18 @@ where
         } else {
             (vars0, old)
         };
+        // huge dynamic range: one weak variable among very reliable ones (its extrinsic is far below the resolution
+        // of the messages the others produce: (x + m) - m != x there, so nothing may be re-derived from a sum)
+        let (vars0, old) = if !i8t && rng.chance(0.06) {
+            let big = if f32t { *rng.pick(&[1e9, 3e5, 1e12]) } else { *rng.pick(&[1e17, 1e9, 1e20]) };
+            let mut v: Vec<f64> = (0..nvars).map(|_| big * rng.uniform(0.5, 1.0) * rng.sign()).collect();
+            let weak = dests[rng.below(d)];
+            v[weak] = *rng.pick(&[1.0, 0.01, 0.3]) * rng.sign();
+            let v = if f32t { v.into_iter().map(|x| x as f32 as f64).collect() } else { v };
+            (v, vec![0.0; d])
+        } else {
+            (vars0, old)
+        };
         // extrinsics in the arithmetic's own precision
         let ext: Vec<f64> = (0..d)
             .map(|j| {
